@@ -137,6 +137,7 @@ pub fn hit_alphabet() -> Vec<Hit> {
         Hit::Long { encoder: 0, addr: 0x000, hitmap: 0x00 }, // three zero bytes inside a chip frame
         Hit::BusyOn,
         Hit::BusyOff,
+        Hit::Long { encoder: 0, addr: 0x0A5, hitmap: 0x33 }, // first byte 0x00 (looks like padding), then 0xA5 (chip header), 0x33
     ]
 }
 
